@@ -10,20 +10,22 @@ use std::collections::HashMap;
 
 #[derive(Clone, Debug, PartialEq)]
 pub enum HRef {
-    Tab(usize),
+    /// j-th handle returned by op number n
+    Tab(usize, usize),
     Lit(u32, u32),
 }
 
 impl HRef {
     pub fn show(&self) -> String {
         match self {
-            HRef::Tab(k) => format!("#{}", k),
+            HRef::Tab(n, j) => format!("#{}.{}", n, j),
             HRef::Lit(i, g) => format!("{}v{}", i, g),
         }
     }
     pub fn parse(s: &str) -> HRef {
         if let Some(k) = s.strip_prefix('#') {
-            HRef::Tab(k.parse().expect("harness: bad href"))
+            let (a, b) = k.split_once('.').expect("harness: bad href");
+            HRef::Tab(a.parse().expect("harness: bad href"), b.parse().expect("harness: bad href"))
         } else {
             let (a, b) = s.split_once('v').expect("harness: bad href");
             HRef::Lit(a.parse().expect("harness: bad id"), b.parse().expect("harness: bad gen"))
@@ -163,6 +165,11 @@ impl Op {
 pub struct Ctx {
     pub worlds: Vec<Option<World>>,
     pub table: Vec<Entity>,
+    /// name `(op number, sub index)` of every table entry
+    pub names: Vec<(usize, usize)>,
+    by_name: HashMap<(usize, usize), usize>,
+    cur_op: usize,
+    cur_sub: usize,
     type_ids: HashMap<TypeId, usize>,
     pub stats: Stats,
 }
@@ -244,14 +251,42 @@ fn build_column_batch(decl: &[usize], rows: &[Bundle]) -> hecs::ColumnBatch {
 
 impl Ctx {
     pub fn new() -> Self {
-        Ctx { worlds: Vec::new(), table: Vec::new(), type_ids: type_id_table(), stats: Stats::default() }
+        Ctx {
+            worlds: Vec::new(),
+            table: Vec::new(),
+            names: Vec::new(),
+            by_name: HashMap::new(),
+            cur_op: 0,
+            cur_sub: 0,
+            type_ids: type_id_table(),
+            stats: Stats::default(),
+        }
     }
 
     pub fn resolve(&self, h: &HRef) -> Entity {
         match h {
-            HRef::Tab(k) => self.table.get(*k).copied().unwrap_or(Entity::DANGLING),
+            HRef::Tab(n, j) => self.by_name.get(&(*n, *j)).map(|&i| self.table[i]).unwrap_or(Entity::DANGLING),
             HRef::Lit(i, g) => entity_of(*i, *g).unwrap_or(Entity::DANGLING),
         }
+    }
+
+    fn push_handle(&mut self, e: Entity) {
+        let name = (self.cur_op, self.cur_sub);
+        self.cur_sub += 1;
+        self.by_name.insert(name, self.table.len());
+        self.names.push(name);
+        self.table.push(e);
+    }
+
+    fn push_handles(&mut self, es: &[Entity]) {
+        for &e in es {
+            self.push_handle(e);
+        }
+    }
+
+    pub fn href(&self, i: usize) -> HRef {
+        let (n, j) = self.names[i];
+        HRef::Tab(n, j)
     }
 
     fn world(&mut self, w: usize) -> &mut World {
@@ -387,7 +422,9 @@ impl Ctx {
     }
 
     /// executes one op; returns (concrete lhs, rhs)
-    pub fn exec(&mut self, op: &Op) -> (String, String) {
+    pub fn exec(&mut self, op: &Op, opnum: usize) -> (String, String) {
+        self.cur_op = opnum;
+        self.cur_sub = 0;
         *self.stats.ops.entry(op.show().split(' ').next().unwrap().to_string()).or_default() += 1;
         let _ = take_drops();
         let (lhs, res) = self.exec_inner(op);
@@ -428,7 +465,7 @@ impl Ctx {
                         world.spawn(eb.build())
                     }
                 };
-                self.table.push(e);
+                self.push_handle(e);
                 (format!("spawn W{} k={} b={}", w, kstr(k), show_comps(b)), format!("e={}", show_entity(e)))
             }
             Op::SpawnAt { w, h, k, b } => {
@@ -444,7 +481,7 @@ impl Ctx {
                         world.spawn_at(e, eb.build())
                     }
                 };
-                self.table.push(e);
+                self.push_handle(e);
                 (format!("spawn_at W{} h={} k={} b={}", w, show_entity(e), kstr(k), show_comps(b)), "ok".into())
             }
             Op::SpawnBatch { w, k, rows } => {
@@ -456,7 +493,7 @@ impl Ctx {
                     let items: Vec<T> = rows.iter().map(|r| <T as StaticBundle>::make(&serials_of(r))).collect();
                     world.spawn_batch(items).collect()
                 });
-                self.table.extend(es.iter().copied());
+                self.push_handles(&es);
                 (
                     format!("spawn_batch W{} k={} ts={} rows={}", w, k, show_nats(&bundle_types(*k)), show_rows(rows)),
                     format!("es={}", show_entities(&es)),
@@ -466,7 +503,7 @@ impl Ctx {
                 let batch = build_column_batch(decl, rows);
                 let world = self.world(*w);
                 let es: Vec<Entity> = world.spawn_column_batch(batch).collect();
-                self.table.extend(es.iter().copied());
+                self.push_handles(&es);
                 (
                     format!("spawn_cb W{} ts={} rows={}", w, show_nats(&canon_types(decl)), show_rows(rows)),
                     format!("es={}", show_entities(&es)),
@@ -477,7 +514,7 @@ impl Ctx {
                 let batch = build_column_batch(decl, rows);
                 let world = self.world(*w);
                 world.spawn_column_batch_at(&es, batch);
-                self.table.extend(es.iter().copied());
+                self.push_handles(&es);
                 (
                     format!(
                         "spawn_cb_at W{} hs={} ts={} rows={}",
@@ -594,7 +631,7 @@ impl Ctx {
                         self.worlds[*v] = Some(dst);
                         match r {
                             Some(ne) => {
-                                self.table.push(ne);
+                                self.push_handle(ne);
                                 (lhs, format!("e={}", show_entity(ne)))
                             }
                             None => (lhs, "nosuch".into()),
@@ -617,12 +654,12 @@ impl Ctx {
             }
             Op::ReserveEntity { w } => {
                 let e = self.world(*w).reserve_entity();
-                self.table.push(e);
+                self.push_handle(e);
                 (op.show(), format!("e={}", show_entity(e)))
             }
             Op::ReserveEntities { w, n } => {
                 let es: Vec<Entity> = self.world(*w).reserve_entities(*n as u32).collect();
-                self.table.extend(es.iter().copied());
+                self.push_handles(&es);
                 (op.show(), format!("es={}", show_entities(&es)))
             }
             Op::Obs { w } => self.obs(*w),
@@ -715,10 +752,10 @@ impl Gen {
         };
         if !live.is_empty() && !self.rng.chance(bad) {
             let (i, _, ts) = live[self.rng.below(live.len())].clone();
-            return (HRef::Tab(i), ts);
+            return (ctx.href(i), ts);
         }
         match self.rng.below(6) {
-            0 | 1 if !ctx.table.is_empty() => (HRef::Tab(self.rng.below(ctx.table.len())), vec![]),
+            0 | 1 if !ctx.table.is_empty() => (ctx.href(self.rng.below(ctx.table.len())), vec![]),
             2 if !ctx.table.is_empty() => {
                 let e = ctx.table[self.rng.below(ctx.table.len())];
                 let bits = e.to_bits().get();
@@ -728,7 +765,7 @@ impl Gen {
             }
             3 => (HRef::Lit(u32::MAX, u32::MAX), vec![]),
             4 => (HRef::Lit(self.rng.below(40) as u32, 1 + self.rng.below(3) as u32), vec![]),
-            _ => (HRef::Tab(ctx.table.len() + 5), vec![]),
+            _ => (HRef::Tab(999_999, 0), vec![]),
         }
     }
 
@@ -755,7 +792,7 @@ impl Gen {
         let m = world.verif_dump().entities.meta.len() as u32;
         let h = match self.rng.below(5) {
             0 => HRef::Lit(m + self.rng.below(4) as u32, 1 + self.rng.below(3) as u32),
-            1 | 2 if !ctx.table.is_empty() => HRef::Tab(self.rng.below(ctx.table.len())),
+            1 | 2 if !ctx.table.is_empty() => ctx.href(self.rng.below(ctx.table.len())),
             3 => HRef::Lit(self.rng.below(m as usize + 1) as u32, 1 + self.rng.below(4) as u32),
             _ => self.pick_handle(ctx, w).0,
         };
@@ -879,7 +916,7 @@ pub struct HistoryOut {
 /// Executes `ops` (when `Some`) or generates `len` ops from `gen`; `obs_every` inserts an
 /// observation after every k-th op.
 pub fn run_history(
-    ops_in: Option<Vec<Op>>,
+    ops_in: Option<Vec<(usize, Op)>>,
     mut gen: Option<&mut Gen>,
     len: usize,
     nworlds: usize,
@@ -890,33 +927,41 @@ pub fn run_history(
     reset_ledger();
     let mut ctx = Ctx::new();
     let mut out = HistoryOut { ops: Vec::new(), trace: Vec::new(), panicked: None };
-    let mut queue: Vec<Op> = Vec::new();
+    let mut queue: Vec<(usize, Op)> = Vec::new();
     let scripted = ops_in.is_some();
+    let mut next_num = 0usize;
     if let Some(o) = ops_in {
         queue = o;
         queue.reverse();
     } else {
         for w in (0..nworlds).rev() {
-            queue.push(Op::NewWorld { w });
+            queue.push((usize::MAX, Op::NewWorld { w }));
         }
     }
     let mut produced = 0usize;
     let mut since_obs = 0usize;
     loop {
-        let op = if let Some(op) = queue.pop() {
-            op
+        let (opnum, op) = if let Some((n, op)) = queue.pop() {
+            if n == usize::MAX {
+                next_num += 1;
+                (next_num - 1, op)
+            } else {
+                next_num = next_num.max(n + 1);
+                (n, op)
+            }
         } else if scripted {
             break;
         } else if produced < len {
             produced += 1;
             let g = gen.as_mut().unwrap();
-            g.next_op(&ctx, nworlds)
+            next_num += 1;
+            (next_num - 1, g.next_op(&ctx, nworlds))
         } else if produced == len {
             // epilogue: observe, then drop every world (ledger check)
             produced += 1;
             for w in (0..nworlds).rev() {
-                queue.push(Op::DropWorld { w });
-                queue.push(Op::Obs { w });
+                queue.push((usize::MAX, Op::DropWorld { w }));
+                queue.push((usize::MAX, Op::Obs { w }));
             }
             continue;
         } else {
@@ -940,9 +985,10 @@ pub fn run_history(
                 }
             }
         }
-        out.ops.push(op.show());
-        log(&op.show());
-        let r = guarded(|| ctx.exec(&op));
+        let opline = format!("@{} {}", opnum, op.show());
+        log(&opline);
+        out.ops.push(opline);
+        let r = guarded(|| ctx.exec(&op, opnum));
         match r {
             Ok((lhs, rhs)) => {
                 out.trace.push(format!("{} => {}", lhs, rhs));
@@ -969,7 +1015,7 @@ pub fn run_history(
             if since_obs >= obs_every {
                 since_obs = 0;
                 if let Some(w) = w {
-                    queue.push(Op::Obs { w });
+                    queue.push((usize::MAX, Op::Obs { w }));
                 }
             }
         }
@@ -999,14 +1045,14 @@ impl Op {
             if c == '#' {
                 let mut num = String::new();
                 while let Some(d) = chars.peek() {
-                    if d.is_ascii_digit() {
+                    if d.is_ascii_digit() || *d == '.' {
                         num.push(*d);
                         chars.next();
                     } else {
                         break;
                     }
                 }
-                let e = ctx.resolve(&HRef::Tab(num.parse().unwrap_or(usize::MAX)));
+                let e = ctx.resolve(&HRef::parse(&format!("#{}", num)));
                 out.push_str(&show_entity(e));
             } else {
                 out.push(c);
